@@ -13,85 +13,196 @@ struct HSlot {
     msg: Vec<u8>,
 }
 
+struct Sys<'a> {
+    out: &'a mut dyn std::io::Write,
+    k: usize,
+    cs: BTreeMap<usize, Box<dyn Ciph>>,
+    hs: BTreeMap<usize, HSlot>,
+}
+
+fn res3(r: &Result<Result<(), ()>, String>) -> String {
+    match r {
+        Ok(Ok(())) => "ok".to_string(),
+        Ok(Err(())) => "err".to_string(),
+        Err(p) => format!("panic:{}", sanitize(p)),
+    }
+}
+
+impl<'a> Sys<'a> {
+    fn start(out: &'a mut dyn std::io::Write) -> Sys<'a> {
+        Ev::new(0, "sys").emit(out);
+        Sys { out, k: 0, cs: BTreeMap::new(), hs: BTreeMap::new() }
+    }
+    fn cnew(&mut self, id: usize, v: &str, key: &[u8], nonce: &[u8]) {
+        self.k += 1;
+        Ev::new(self.k, "cnew").i("i", id as i64).s("variant", v).bytes("key", key).bytes("nonce", nonce).s("res", "ok").emit(self.out);
+        self.cs.insert(id, chacha::make(v, key, nonce));
+    }
+    fn hadd(&mut self, id: usize, alg: &str, n: usize) {
+        self.k += 1;
+        Ev::new(self.k, "hadd").i("i", id as i64).s("alg", alg).i("n", hashes::out_size(alg, n) as i64).s("res", "ok").emit(self.out);
+        self.hs.insert(id, HSlot { h: hashes::make_hash(alg, n), alg: alg.to_string(), n, msg: vec![] });
+    }
+    fn capply(&mut self, id: usize, before: &[u8]) {
+        let c = self.cs.get_mut(&id).unwrap();
+        let mut buf = before.to_vec();
+        let r = guarded(|| c.apply(&mut buf));
+        self.k += 1;
+        Ev::new(self.k, "apply").i("i", id as i64).i("n", before.len() as i64).bytes("before", before).bytes("after", &buf).b("guard", true).s("res", &res3(&r)).emit(self.out);
+    }
+    fn cseek(&mut self, id: usize, p: u128) {
+        let c = self.cs.get_mut(&id).unwrap();
+        let r = guarded(|| c.seek("u64", false, p));
+        self.k += 1;
+        Ev::new(self.k, "seek").i("i", id as i64).s("ty", "u64").b("neg", false).limbs("val", p, 8).s("res", &res3(&r)).emit(self.out);
+    }
+    fn cpos(&mut self, id: usize) {
+        let c = self.cs.get(&id).unwrap();
+        let r = guarded(|| c.pos("u128"));
+        let (res, val) = match r {
+            Ok(Some(v)) => ("ok".to_string(), v),
+            Ok(None) => ("ovf".to_string(), 0),
+            Err(p) => (format!("panic:{}", sanitize(&p)), 0),
+        };
+        self.k += 1;
+        Ev::new(self.k, "pos").i("i", id as i64).s("ty", "u128").limbs("val", val, 8).s("res", &res).emit(self.out);
+    }
+    fn hupd(&mut self, id: usize, d: &[u8]) {
+        let s = self.hs.get_mut(&id).unwrap();
+        s.h.upd(d);
+        s.msg.extend_from_slice(d);
+        self.k += 1;
+        Ev::new(self.k, "upd").i("i", id as i64).bytes("data", d).s("res", "ok").emit(self.out);
+    }
+    fn hclone(&mut self, id: usize, dst: usize) {
+        let s = self.hs.get(&id).unwrap();
+        let c = HSlot { h: s.h.cl(), alg: s.alg.clone(), n: s.n, msg: s.msg.clone() };
+        self.hs.insert(dst, c);
+        self.k += 1;
+        Ev::new(self.k, "clone").i("i", id as i64).i("j", dst as i64).s("res", "ok").emit(self.out);
+    }
+    fn hreset(&mut self, id: usize) {
+        let s = self.hs.get_mut(&id).unwrap();
+        s.h.rst();
+        s.msg.clear();
+        self.k += 1;
+        Ev::new(self.k, "reset").i("i", id as i64).s("res", "ok").emit(self.out);
+    }
+    fn href(&mut self, id: usize) {
+        let s = self.hs.get(&id).unwrap();
+        let rf = { let mut h = hashes::make_hash(&s.alg, s.n); h.upd(&s.msg); h.fin() };
+        self.k += 1;
+        Ev::new(self.k, "ref").s("alg", &s.alg).i("n", hashes::out_size(&s.alg, s.n) as i64).bytes("msg", &s.msg).bytes("out", &rf).s("res", "ok").emit(self.out);
+    }
+    fn hfinreset(&mut self, id: usize) {
+        self.href(id);
+        let k = self.k;
+        let s = self.hs.get_mut(&id).unwrap();
+        let o = s.h.fin_reset_how(k);
+        s.msg.clear();
+        self.k += 1;
+        Ev::new(self.k, "finreset").i("i", id as i64).bytes("out", &o).s("res", "ok").emit(self.out);
+    }
+    fn finish(&mut self) {
+        let ids: Vec<usize> = self.hs.keys().cloned().collect();
+        for id in ids {
+            self.href(id);
+            let s = self.hs.remove(&id).unwrap();
+            let o = s.h.fin();
+            self.k += 1;
+            Ev::new(self.k, "fin").i("i", id as i64).bytes("out", &o).s("res", "ok").emit(self.out);
+        }
+    }
+}
+
+/// cipher 1 and 2: same type, different keys; cipher 3: SAME key and nonce as cipher 1, another round count of the same
+/// nonce layout (state shared per key/nonce/position would mix them up); hashers 1 and 2: the same algorithm
+fn populate(sys: &mut Sys, rng: &mut Rng, nc: usize) {
+    let first_variant = *rng.pick(&chacha::VARIANTS);
+    let family: Vec<&str> = chacha::VARIANTS.iter().cloned().filter(|v| chacha::nonce_len(v) == chacha::nonce_len(first_variant)).collect();
+    let shared_key = rng.bytes(32);
+    let shared_nonce = rng.bytes(chacha::nonce_len(first_variant));
+    for id in 1..=nc {
+        let (v, key, nonce) = match id {
+            1 => (first_variant, shared_key.clone(), shared_nonce.clone()),
+            2 => (first_variant, rng.bytes(32), rng.bytes(chacha::nonce_len(first_variant))),
+            3 => {
+                let pos = family.iter().position(|x| *x == first_variant).unwrap();
+                (family[(pos + 1) % family.len()], shared_key.clone(), shared_nonce.clone())
+            }
+            _ => {
+                let v = *rng.pick(&chacha::VARIANTS);
+                (v, rng.bytes(32), rng.bytes(chacha::nonce_len(v)))
+            }
+        };
+        sys.cnew(id, v, &key, &nonce);
+    }
+    let first_alg = *rng.pick(&hashes::C08_ALGS);
+    for id in 1..=2usize {
+        sys.hadd(id, first_alg.0, first_alg.1);
+    }
+}
+
+/// Schedules drawn by TLC from System.tla (spec -> impl): one line per behaviour, a JSON array of [op, instance, argument]
+pub fn run_sys_schedules(out: &mut dyn std::io::Write, path: &str, seed: u64) {
+    let text = std::fs::read_to_string(path).expect("schedules");
+    let mut rng = Rng::new(seed ^ 0x5e5);
+    for line in text.lines() {
+        let toks: Vec<String> = line.replace('[', " ").replace(']', " ").replace(',', " ").replace('"', " ").split_whitespace().map(|s| s.to_string()).collect();
+        if toks.is_empty() {
+            continue;
+        }
+        let mut sys = Sys::start(out);
+        populate(&mut sys, &mut rng, 3);
+        for t in toks.chunks(3) {
+            let (op, a, b) = (t[0].as_str(), t[1].parse::<usize>().unwrap(), t[2].parse::<usize>().unwrap());
+            match op {
+                "capply" => { let d = rng.bytes(b); sys.capply(a, &d) }
+                "cseek" => sys.cseek(a, b as u128),
+                "cpos" => sys.cpos(a),
+                "hupd" => { let d = rng.bytes(b); sys.hupd(a, &d) }
+                "hclone" => sys.hclone(a, b),
+                "hreset" => sys.hreset(a),
+                "hfinreset" => sys.hfinreset(a),
+                _ => panic!("harness: schedule op {}", op),
+            }
+        }
+        sys.finish();
+    }
+}
+
 pub fn drive_interleave(out: &mut dyn std::io::Write, seed: u64, thorough: bool) {
     let mut rng = Rng::new(seed ^ 0xc18);
     let episodes = if thorough { 60 } else { 10 };
     for _ in 0..episodes {
-        let mut k = 0usize;
-        Ev::new(0, "sys").emit(out);
-        let mut cs: BTreeMap<usize, Box<dyn Ciph>> = BTreeMap::new();
-        let mut hs: BTreeMap<usize, HSlot> = BTreeMap::new();
-        // 2-3 ciphers, 2 hashers to begin with
-        let first_variant = *rng.pick(&chacha::VARIANTS);
-        let family: Vec<&str> = chacha::VARIANTS.iter().cloned().filter(|v| chacha::nonce_len(v) == chacha::nonce_len(first_variant)).collect();
-        let shared_key = rng.bytes(32);
-        let shared_nonce = rng.bytes(chacha::nonce_len(first_variant));
-        for id in 1..=(3 + rng.below(2) as usize) {
-            // ciphers 1 and 2: same type, different keys; cipher 3: SAME key and nonce as cipher 1 but another round count of the
-            // same nonce layout (any state shared per key/nonce/position would mix them up); further ones random
-            let (v, key, nonce) = match id {
-                1 => (first_variant, shared_key.clone(), shared_nonce.clone()),
-                2 => (first_variant, rng.bytes(32), rng.bytes(chacha::nonce_len(first_variant))),
-                3 => {
-                    let pos = family.iter().position(|x| *x == first_variant).unwrap();
-                    (family[(pos + 1) % family.len()], shared_key.clone(), shared_nonce.clone())
-                }
-                _ => {
-                    let v = *rng.pick(&chacha::VARIANTS);
-                    (v, rng.bytes(32), rng.bytes(chacha::nonce_len(v)))
-                }
-            };
-            k += 1;
-            Ev::new(k, "cnew").i("i", id as i64).s("variant", v).bytes("key", &key).bytes("nonce", &nonce).s("res", "ok").emit(out);
-            cs.insert(id, chacha::make(v, &key, &nonce));
-        }
-        let first_alg = *rng.pick(&hashes::C08_ALGS);
-        for id in 1..=3usize {
-            // two hashers of the same algorithm plus one of another
-            let (alg, n) = if id <= 2 { first_alg } else { *rng.pick(&hashes::C08_ALGS) };
-            k += 1;
-            Ev::new(k, "hadd").i("i", id as i64).s("alg", alg).i("n", hashes::out_size(alg, n) as i64).s("res", "ok").emit(out);
-            hs.insert(id, HSlot { h: hashes::make_hash(alg, n), alg: alg.to_string(), n, msg: vec![] });
-        }
+        let mut sys = Sys::start(out);
+        let nc = 3 + rng.below(2) as usize;
+        populate(&mut sys, &mut rng, nc);
+        let extra = *rng.pick(&hashes::C08_ALGS);
+        sys.hadd(3, extra.0, extra.1);
         let steps = if thorough { 60 } else { 36 };
         for _ in 0..steps {
             if rng.below(2) == 0 {
-                // cipher step
-                let ids: Vec<usize> = cs.keys().cloned().collect();
+                let ids: Vec<usize> = sys.cs.keys().cloned().collect();
                 let id = *rng.pick(&ids);
-                let c = cs.get_mut(&id).unwrap();
                 match rng.below(6) {
                     0 => {
                         let p = *rng.pick(&[0u128, 1, 63, 64, 65, 200, 1000, (1u128 << 38) - 70]);
-                        let r = guarded(|| c.seek("u64", false, p));
-                        let res = match r { Ok(Ok(())) => "ok".to_string(), Ok(Err(())) => "err".to_string(), Err(p) => format!("panic:{}", sanitize(&p)) };
-                        k += 1;
-                        Ev::new(k, "seek").i("i", id as i64).s("ty", "u64").b("neg", false).limbs("val", p, 8).s("res", &res).emit(out);
+                        sys.cseek(id, p);
                     }
-                    1 => {
-                        let r = guarded(|| c.pos("u128"));
-                        let (res, val) = match r { Ok(Some(v)) => ("ok".to_string(), v), Ok(None) => ("ovf".to_string(), 0), Err(p) => (format!("panic:{}", sanitize(&p)), 0) };
-                        k += 1;
-                        Ev::new(k, "pos").i("i", id as i64).s("ty", "u128").limbs("val", val, 8).s("res", &res).emit(out);
-                    }
+                    1 => sys.cpos(id),
                     _ => {
                         let n = *rng.pick(&[0usize, 1, 17, 63, 64, 65, 130, 256, 300]);
-                        // ciphers 1 and 3 share key and nonce: when one of them is stepped, step the other by the same amount right
-                        // after it (lock-step), so that both ask for the same keystream positions back to back
-                        let ids2: Vec<usize> = if (id == 1 || id == 3) && cs.contains_key(&1) && cs.contains_key(&3) && rng.below(3) != 0 { vec![id, 4 - id] } else { vec![id] };
+                        // ciphers 1 and 3 share key and nonce: step them in lock-step most of the time
+                        let ids2: Vec<usize> = if (id == 1 || id == 3) && rng.below(3) != 0 { vec![id, 4 - id] } else { vec![id] };
                         for id in ids2 {
-                            let c = cs.get_mut(&id).unwrap();
-                            let before = rng.bytes(n);
-                            let mut buf = before.clone();
-                            let r = guarded(|| c.apply(&mut buf));
-                            let res = match r { Ok(Ok(())) => "ok".to_string(), Ok(Err(())) => "err".to_string(), Err(p) => format!("panic:{}", sanitize(&p)) };
-                            k += 1;
-                            Ev::new(k, "apply").i("i", id as i64).i("n", n as i64).bytes("before", &before).bytes("after", &buf).b("guard", true).s("res", &res).emit(out);
+                            let d = rng.bytes(n);
+                            sys.capply(id, &d);
                         }
                     }
                 }
             } else {
-                let ids: Vec<usize> = hs.keys().cloned().collect();
+                let ids: Vec<usize> = sys.hs.keys().cloned().collect();
                 if ids.is_empty() {
                     continue;
                 }
@@ -99,52 +210,20 @@ pub fn drive_interleave(out: &mut dyn std::io::Write, seed: u64, thorough: bool)
                 match rng.below(10) {
                     0 if ids.len() < 5 => {
                         let dst = (1..=8).find(|d| !ids.contains(d)).unwrap();
-                        let s = hs.get(&id).unwrap();
-                        let c = HSlot { h: s.h.cl(), alg: s.alg.clone(), n: s.n, msg: s.msg.clone() };
-                        hs.insert(dst, c);
-                        k += 1;
-                        Ev::new(k, "clone").i("i", id as i64).i("j", dst as i64).s("res", "ok").emit(out);
+                        sys.hclone(id, dst);
                     }
-                    1 => {
-                        let s = hs.get_mut(&id).unwrap();
-                        s.h.rst();
-                        s.msg.clear();
-                        k += 1;
-                        Ev::new(k, "reset").i("i", id as i64).s("res", "ok").emit(out);
-                    }
-                    2 => {
-                        let s = hs.get_mut(&id).unwrap();
-                        let rf = { let mut h = hashes::make_hash(&s.alg, s.n); h.upd(&s.msg); h.fin() };
-                        k += 1;
-                        Ev::new(k, "ref").s("alg", &s.alg).i("n", hashes::out_size(&s.alg, s.n) as i64).bytes("msg", &s.msg).bytes("out", &rf).s("res", "ok").emit(out);
-                        let o = s.h.fin_reset_how(k);
-                        s.msg.clear();
-                        k += 1;
-                        Ev::new(k, "finreset").i("i", id as i64).bytes("out", &o).s("res", "ok").emit(out);
-                    }
+                    1 => sys.hreset(id),
+                    2 => sys.hfinreset(id),
                     _ => {
-                        let s = hs.get_mut(&id).unwrap();
-                        let b = hashes::block_size(&s.alg);
+                        let b = hashes::block_size(&sys.hs[&id].alg);
                         let n = *rng.pick(&[0usize, 1, b - 1, b, b + 1, 2 * b + 3, 5]);
                         let d = rng.bytes(n);
-                        s.h.upd(&d);
-                        s.msg.extend_from_slice(&d);
-                        k += 1;
-                        Ev::new(k, "upd").i("i", id as i64).bytes("data", &d).s("res", "ok").emit(out);
+                        sys.hupd(id, &d);
                     }
                 }
             }
         }
-        let ids: Vec<usize> = hs.keys().cloned().collect();
-        for id in ids {
-            let s = hs.remove(&id).unwrap();
-            let rf = { let mut h = hashes::make_hash(&s.alg, s.n); h.upd(&s.msg); h.fin() };
-            k += 1;
-            Ev::new(k, "ref").s("alg", &s.alg).i("n", hashes::out_size(&s.alg, s.n) as i64).bytes("msg", &s.msg).bytes("out", &rf).s("res", "ok").emit(out);
-            let o = s.h.fin();
-            k += 1;
-            Ev::new(k, "fin").i("i", id as i64).bytes("out", &o).s("res", "ok").emit(out);
-        }
+        sys.finish();
     }
 }
 
